@@ -39,6 +39,7 @@ EntryNodes(name, e) ==
     IF e.k = "null" THEN << <<name, NullNode>> >>
     ELSE IF e.k = "group" THEN << <<name, MapNode(<< <<"s", StrNode(<<"x">>)>> >>)>> >>
     ELSE IF e.k = "val" THEN << <<name, StrNode(UnparseX(e.v))>> >>
+    ELSE IF e.k = "lit" THEN << <<name, RawSym(e.sym)>> >>
     ELSE IF e.k = "ranges" THEN << <<name, RangeNode(e)>> >>
     ELSE LET fs == SelectSeq(FormOrder, LAMBDA f : f \in DOMAIN e.forms) IN
          [j \in DOMAIN fs |-> <<name \o (IF e.ty = "ordinal" THEN "_ordinal_" ELSE "_") \o fs[j], StrNode(UnparseX(e.forms[fs[j]]))>>]
@@ -177,6 +178,28 @@ F6Keys ==
 F6Case == ProjectCase("fk-nested", [def |-> "en", locs |-> <<"en">>, inh |-> << >>, vals |-> [en |-> F6Keys]],
                       [k \in DOMAIN F6Keys |-> k], "none")
 
+\* F8: literals that are not strings.  Number / boolean keys as targets of references, and numbers as arguments for plain
+\* variables - first in the value, after a variable, first inside a component, after text - so that they meet the text around them
+LitE(ty, sym, disp) == [k |-> "lit", ty |-> ty, sym |-> sym, disp |-> disp]
+NumArg(nsym, sym) == ArgN(nsym, sym, sym, 0, "")
+NVar == <<"n">>
+F8Keys ==
+    [n1 |-> LitE("Unsigned", <<"1","0">>, <<"1","0">>), i1 |-> LitE("Signed", <<"DASH","3">>, <<"DASH","3">>),
+     f1 |-> LitE("Float", <<"1","DOT","5">>, <<"1","DOT","5">>), b1 |-> LitE("Bool", <<"t","r","u","e">>, <<"t","r","u","e">>),
+     la |-> Val(<<Fk(<<"n","1">>, <<>>), T(<<"SP","i","t","e","m","s">>)>>),
+     lb |-> Val(<<T(<<"a","t","SP","m","o","s","t","SP">>), Fk(<<"n","1">>, <<>>)>>),
+     lc |-> Val(<<V(X), Fk(<<"i","1">>, <<>>), T(<<"SP","l","e","f","t">>)>>),
+     ld |-> Val(<<Comp(<<"b">>, <<V(X)>>), Fk(<<"f","1">>, <<>>), T(<<"SP","x">>)>>),
+     le |-> Val(<<Fk(<<"b","1">>, <<>>), T(<<"SP","i","s">>), Fk(<<"n","1">>, <<>>), Fk(<<"b","1">>, <<>>)>>),
+     t1 |-> Val(<<V(NVar), T(<<"SP","l","e","f","t">>)>>),
+     t2 |-> Val(<<T(<<"p">>), Comp(<<"b">>, <<V(NVar), T(<<"SP","i","n">>)>>), V(NVar), V(NVar), T(<<"SP","e","n","d">>)>>),
+     ta |-> Val(<<Fk(<<"t","1">>, <<NumArg(NVar, <<"2">>)>>)>>),
+     tb |-> Val(<<Fk(<<"t","2">>, <<NumArg(NVar, <<"2">>)>>), T(<<"SP","t","a","i","l">>)>>),
+     tc |-> Val(<<V(X), Fk(<<"t","1">>, <<NumArg(NVar, <<"DASH","7">>)>>)>>),
+     td |-> Val(<<Fk(<<"t","2">>, <<NumArg(NVar, <<"1","DOT","5">>)>>)>>)]
+F8Case == ProjectCase("fk-literals", [def |-> "en", locs |-> <<"en", "fr">>, inh |-> << >>, vals |-> [l \in {"en", "fr"} |-> F8Keys]],
+                      [k \in DOMAIN F8Keys |-> k], "none")
+
 \* F7: arm shapes.  Every range target whose three arms are drawn from {literal, variable, count, component around the variable}
 \* (the second locale holds the rotated triple, so the signature is a union), every plural target whose two forms are drawn from
 \* the same shapes, and for each target six referrers: bare; followed / preceded by the referrer's own {{ x }}; a component using
@@ -218,5 +241,5 @@ F7Case == LET vals == [l \in {"en", "fr"} |-> F7Vals(l)] IN
           ProjectCase("fk-arm-shapes", [def |-> "en", locs |-> <<"en", "fr">>, inh |-> << >>, vals |-> vals],
                       [k \in DOMAIN vals["en"] |-> k], "none")
 
-Families == <<F2Case, F3Plural, F6Case, F7Case>> \o F3Cases \o F4Cases \o F5Cases
+Families == <<F2Case, F3Plural, F6Case, F7Case, F8Case>> \o F3Cases \o F4Cases \o F5Cases
 =============================================================================
